@@ -327,8 +327,8 @@ func propC18(t *rapid.T) {
 	var core zapcore.Core = zapcore.NewCore(zapcore.NewJSONEncoder(c18Cfg), sink, al)
 	// the handler may sit on top of any core: one that already carries context (possibly ending in an
 	// open namespace, under which everything the handler adds must nest), wrappers, a tee with an observer
-	coreWrap := rapid.SampledFrom([]string{"plain", "plain", "ctx", "ctx-ns", "lazy", "sampler", "hooked", "tee-observer", "increase"}).Draw(t, "coreWrap")
-	var obsLogs *observer.ObservedLogs
+	coreWrap := rapid.SampledFrom([]string{"plain", "plain", "ctx", "ctx-ns", "lazy", "sampler", "hooked", "tee-observer", "increase", "tee-quiet"}).Draw(t, "coreWrap")
+	var obsLogs, quietLogs *observer.ObservedLogs
 	switch coreWrap {
 	case "ctx":
 		core = core.With([]zapcore.Field{zap.String("cx", "v")})
@@ -348,6 +348,12 @@ func propC18(t *rapid.T) {
 		if c, err := zapcore.NewIncreaseLevelCore(core, al); err == nil {
 			core = c
 		}
+	case "tee-quiet":
+		// a second destination with a level of its OWN (errors only): each branch of a tee receives exactly the
+		// records whose mapped level it enables itself
+		var qc zapcore.Core
+		qc, quietLogs = observer.New(zapcore.ErrorLevel)
+		core = zapcore.NewTee(core, qc)
 	}
 	name := rapid.SampledFrom([]string{"", "svc"}).Draw(t, "handlerName")
 	var refBuf bytes.Buffer
@@ -456,7 +462,8 @@ func propC18(t *rapid.T) {
 			defer cancel()
 			ctx = c
 		}
-		if got := n.h.Enabled(ctx, lvl); got != wantHandled {
+		quietWants := quietLogs != nil && zl >= zapcore.ErrorLevel
+		if got := n.h.Enabled(ctx, lvl); got != (wantHandled || quietWants) {
 			t.Fatalf("handler #%d Enabled(%v)=%v but the core enables mapped level %v: %v", n.id, lvl, got, zl, wantHandled)
 		}
 		before := len(sink.writes)
@@ -466,6 +473,11 @@ func propC18(t *rapid.T) {
 		}
 		if after := c18Shapes(actual); after != shapeBefore {
 			t.Fatalf("Handle modified the attributes the caller handed over:\n before: %s\n after:  %s", clipS(shapeBefore), clipS(after))
+		}
+		if quietLogs != nil {
+			if got := len(quietLogs.TakeAll()); (got == 1) != quietWants || got > 1 {
+				t.Fatalf("handler #%d over a tee: the errors-only branch received %d entries for a record at slog level %v (zap %v)", n.id, got, lvl, zl)
+			}
 		}
 		handled := len(sink.writes) - before
 		if (handled == 1) != wantHandled || handled > 1 {
